@@ -64,6 +64,35 @@ Theorem C11_block_comment_non_code : forall s,
 Proof. exact block_comment_non_code. Qed.
 Print Assumptions C11_block_comment_non_code.
 
+(** The keyword-terminator guard of [greedy_match] distinguishes only meta / whitespace-or-newline /
+    anything else ... *)
+Theorem C11_guard_class_only : forall xs ys working start,
+  map guard_class xs = map guard_class ys ->
+  terminator_guard xs working start = terminator_guard ys working start.
+Proof. exact guard_class_only. Qed.
+Print Assumptions C11_guard_class_only.
+
+(** ... a whitespace or newline token directly before the terminator always satisfies it ... *)
+Theorem C11_guard_gap_before : forall toks working start t,
+  0 < start -> working <= start ->
+  nth_error toks (N.to_nat (start - 1)) = Some t -> is_gap_kind t = true ->
+  terminator_guard toks working start = Some true.
+Proof. exact guard_gap_before. Qed.
+Print Assumptions C11_guard_gap_before.
+
+(** ... a comment does not: same code tokens, different guard (known finding
+    c11:comment-abuts-next-code-token). *)
+Theorem C11_guard_comment_refuted :
+  filter is_code g_sel = filter is_code g_sel_comment /\
+  terminator_guard g_sel 2 4 = Some true /\ terminator_guard g_sel_comment 2 5 = Some false.
+Proof. exact guard_comment_refuted. Qed.
+Print Assumptions C11_guard_comment_refuted.
+
+Theorem C11_guard_total : forall toks working start,
+  0 < working -> start <= N.of_nat (length toks) -> terminator_guard toks working start <> None.
+Proof. exact guard_total. Qed.
+Print Assumptions C11_guard_total.
+
 (** Each perturbation of the property leaves the code view (code tokens, keyword raws
     upper-cased) unchanged ... *)
 Theorem C11_step_code_view : forall kw x y, step kw x y -> code_view kw x = code_view kw y.
